@@ -70,11 +70,28 @@ type vUniState struct {
 	next    int
 	foreign bool // a response carrying another call's id was handed to the caller
 	frames  [][]byte
+	hasDl   bool      // the call runs under a context with a deadline ...
+	ctxDl   time.Time // ... this one
+	dlViol  string    // an operation on a connection which had not been given that deadline
 }
 
 type vUniConn struct {
-	id int
-	st *vUniState
+	id       int
+	st       *vUniState
+	rdl, wdl time.Time // the deadlines set on THIS connection (zero: none)
+}
+
+// under a context with a deadline every read / write must happen on a connection which has been
+// given a deadline no later than the context's - also a connection obtained by a reconnect inside the call
+func (c *vUniConn) checkDl(op string, dl time.Time) {
+	if !c.st.hasDl || c.st.dlViol != "" {
+		return
+	}
+	if dl.IsZero() {
+		c.st.dlViol = fmt.Sprintf("%s on connection %d with no deadline set on it", op, c.id)
+	} else if dl.After(c.st.ctxDl) {
+		c.st.dlViol = fmt.Sprintf("%s on connection %d with a deadline after the context's", op, c.id)
+	}
 }
 
 func (s *vUniState) pop(kind string) (vUniEv, bool) {
@@ -90,15 +107,17 @@ func (s *vUniState) pop(kind string) (vUniEv, bool) {
 	return e, true
 }
 
-func (c *vUniConn) SetWriteDeadline(time.Time) error {
+func (c *vUniConn) SetWriteDeadline(t time.Time) error {
 	c.st.mu.Lock()
 	defer c.st.mu.Unlock()
+	c.wdl = t
 	c.st.trace = append(c.st.trace, fmt.Sprintf("OSetW %d", c.id))
 	return nil
 }
-func (c *vUniConn) SetReadDeadline(time.Time) error {
+func (c *vUniConn) SetReadDeadline(t time.Time) error {
 	c.st.mu.Lock()
 	defer c.st.mu.Unlock()
+	c.rdl = t
 	c.st.trace = append(c.st.trace, fmt.Sprintf("OSetR %d", c.id))
 	return nil
 }
@@ -106,6 +125,7 @@ func (c *vUniConn) WriteMessage(mt int, p []byte) error {
 	c.st.mu.Lock()
 	defer c.st.mu.Unlock()
 	c.st.trace = append(c.st.trace, fmt.Sprintf("OWrite %d", c.id))
+	c.checkDl("WriteMessage", c.wdl)
 	c.st.writes = append(c.st.writes, append([]byte(nil), p...))
 	e, ok := c.st.pop("write")
 	if !ok {
@@ -123,6 +143,7 @@ func (c *vUniConn) ReadMessage() (int, []byte, error) {
 	c.st.mu.Lock()
 	defer c.st.mu.Unlock()
 	c.st.trace = append(c.st.trace, fmt.Sprintf("ORead %d", c.id))
+	c.checkDl("ReadMessage", c.rdl)
 	e, ok := c.st.pop("read")
 	if !ok {
 		return 0, nil, errVIO
@@ -176,9 +197,9 @@ func vUniFrame(r *vRand) ([]byte, bool, string) {
 	case 4:
 		return resp("x", nil, ""), true, "empty-reply"
 	case 5:
-		return resp("x", nil, "remote boom"), true, "remote-error"
+		return resp("x", nil, vPctText(r, "remote boom")), true, "remote-error"
 	case 6:
-		return resp("x", app(), "remote boom with payload"), true, "remote-error+payload"
+		return resp("x", app(), vPctText(r, "remote boom with payload")), true, "remote-error+payload"
 	case 7:
 		return vFrame(&message.Message{Exchange: &message.Message_Request{Request: &message.Request{Method: "M", CallId: "x"}}}), false, "request-frame"
 	case 8:
@@ -257,10 +278,17 @@ func vUniInvokeCase(r *vRand) {
 	}
 	defer cancel()
 	st := &vUniState{script: script, cancel: cancel}
+	st.ctxDl, st.hasDl = ctx.Deadline()
 	uc := &UniClientConn{conn: &vUniConn{id: 0, st: st}, lggr: vNopLogger{}, connectFn: st.connect}
+	// token and method name are free text as well
 	token := fmt.Sprintf("arg%d", r.Intn(1000))
+	method := "Method"
+	if r.Intn(3) == 0 {
+		token = vPctText(r, token)
+		method = []string{"Method%d", "100%", "%s", "Meth%%od"}[r.Intn(4)]
+	}
 	reply := &message.Response{CallId: "stale-before-call"}
-	err := uc.Invoke(ctx, "Method", &message.Response{CallId: token}, reply)
+	err := uc.Invoke(ctx, method, &message.Response{CallId: token}, reply)
 	// classify
 	var res string
 	switch {
@@ -314,7 +342,7 @@ func vUniInvokeCase(r *vRand) {
 	}
 	if len(st.writes) > 0 {
 		m := &message.Message{}
-		if proto.Unmarshal(st.writes[0], m) != nil || m.GetRequest().GetMethod() != "Method" {
+		if proto.Unmarshal(st.writes[0], m) != nil || m.GetRequest().GetMethod() != method {
 			fail = "uni-request-malformed"
 		} else {
 			in := &message.Response{}
@@ -326,6 +354,9 @@ func vUniInvokeCase(r *vRand) {
 	if st.misuse != "" {
 		fail = "uni-script-deviation"
 	}
+	if st.dlViol != "" {
+		fail = "uni-io-without-context-deadline"
+	}
 	if err == nil && last == "foreign-id" && st.pos == len(script) {
 		// the caller got the outcome of a response that carries another call's id
 		vEmit(vCase{Class: "invoke-foreign-id", Fail: "uni-foreign-response-accepted", Sig: "foreign", Info: map[string]interface{}{"frame_hex": vHex(st.frames[len(st.frames)-1])}})
@@ -333,7 +364,7 @@ func vUniInvokeCase(r *vRand) {
 	vEmit(vCase{Class: "invoke/" + last, Fail: fail,
 		Coq:  fmt.Sprintf("CInvoke %s %s %s %s %d", vCoqBool(dl), vCoqList(evs), res, vCoqList(st.trace), len(script)-st.pos),
 		Sig:  strings.Join(evs, ";") + fmt.Sprint(dl),
-		Info: map[string]interface{}{"script_len": len(script), "deadline": dl, "outcome": strings.SplitN(strings.Trim(res, "("), " ", 2)[0], "last_frame": last, "misuse": st.misuse}})
+		Info: map[string]interface{}{"script_len": len(script), "deadline": dl, "outcome": strings.SplitN(strings.Trim(res, "("), " ", 2)[0], "last_frame": last, "misuse": st.misuse, "deadline_monitor": st.dlViol}})
 }
 
 func vUniRetryCase(r *vRand) {
@@ -441,6 +472,8 @@ func TestVerifC20(t *testing.T) {
 	for i := 0; i < m; i++ {
 		vUniRetryCase(r)
 	}
+	// deadlines across in-call reconnects, on connections which honour them (ga_uni_test.go)
+	vGaUniDeadlineScenarios()
 	// serialisation: concurrent callers never interleave on the connection
 	{
 		bc := &vBlockConn{delay: 300 * time.Microsecond}
